@@ -11,7 +11,8 @@ import Generated.Script
 
 Property theorems only.  NO theorem here is about `Model/C08/Verify.lean` (VerifyScript, P2SH, witness v0, taproot
 dispatch, CLEANSTACK, malleation rules): that shell is tied by the `core.verify_input`, `core.script_tests` and
-`core.tx_vectors` streams only.  `Btc.Script.Core.*` is the transcription of Bitcoin Core's interpreter (the
+`core.tx_vectors` streams only.  NO theorem here is about the tapscript loop of btclib (`engine/tapscript.py`) beyond its
+dispatch list (`switch_covers_the_table`): it has no btclib-shaped model; `core.execwit` / `core.verify_input` streams only.  `Btc.Script.Core.*` is the transcription of Bitcoin Core's interpreter (the
 specification); `Btc.Script.*` are the hand models of btclib's code (tied by correspondence);
 `Gen.Script.*` is regenerated from btclib's source on every run.
 -/
@@ -115,22 +116,52 @@ theorem flag_names_are_Cores :
     byte, every name, in order — swapping two names anywhere breaks this. -/
 theorem opcode_table_is_Cores : Gen.Script.OP_NAMES = Core.OPCODES := by decide
 
-/-- every named op code above OP_PUSHDATA4 is accounted for by the transcription: it has a case of the switch, or it is
-    disabled, or it is one of the six that fall to `default: BAD_OPCODE`; and those six do (in an executed branch). -/
+/-- does Core's `switch` have a `case` for this op code?  Read off the transcription itself, not off a list: the op code
+    run in a tapscript context on an empty stack (so that OP_CHECKSIGADD and OP_CHECKMULTISIG show their own errors)
+    answers `BAD_OPCODE` exactly when it falls to `default:` -/
+def coreHasCase (c : Nat) : Bool :=
+  let cx : Core.Ctx := { flags := 0, sigversion := .TAPSCRIPT, hashes := ⟨id, id, id⟩,
+                         checker := ⟨fun _ _ _ _ => .ok false, fun _ _ _ _ => some .SCHNORR_SIG⟩, script := [] }
+  if Core.inConditionalRange c then
+    decide (Core.execConditional cx { m := { stack := [] } } c false ≠ .error .BAD_OPCODE)
+  else decide (Core.execPlain cx 0 0 { stack := [] } c ≠ .error .BAD_OPCODE)
+
+/-- the op codes the engines dispatch on, REGENERATED from the source (the if/elif chain over `op` in the AST of
+    `engine.script._run_ops` and `engine.tapscript._run_ops`, evaluated by the translator on the name tables:
+    `Gen.Script.LEGACY_DISPATCHED`, `Gen.Script.TAPSCRIPT_DISPATCHED`), against Core's switch as transcribed, for every
+    byte from OP_1NEGATE up:
+    * the legacy / v0 loop has an arm exactly for the op codes with a `case`, OP_CHECKSIGADD excepted (whose case answers
+      BAD_OPCODE outside tapscript);
+    * the tapscript loop has an arm exactly for the op codes with a `case` that are not OP_SUCCESSx, OP_CHECKMULTISIG and
+      OP_CHECKMULTISIGVERIFY excepted (BIP342: their case answers TAPSCRIPT_CHECKMULTISIG);
+    * the model's byte dispatch (`Btclib.kind`) is that generated list, and it is the generated CHAIN (tests in source
+      order, `Gen.Script.LEGACY_DISPATCH`) interpreted with Python's meaning of the tests on the generated name table;
+    and the six named op codes without a case do fall to `default: BAD_OPCODE` on every state. -/
 theorem switch_covers_the_table :
-    (Core.OPCODES.filter (fun p => p.1 > 0x4e)).all
-      (fun p => Core.SWITCH_CASES.contains p.1 || Core.DISABLED.contains p.1 || Core.NO_CASE.contains p.1) = true ∧
+    ((List.range 256).filter (fun c => c ≥ 0x4f)).all
+      (fun c => Gen.Script.LEGACY_DISPATCHED.contains c == (coreHasCase c && c != 0xba)) = true ∧
+    ((List.range 256).filter (fun c => c ≥ 0x4f)).all
+      (fun c => Gen.Script.TAPSCRIPT_DISPATCHED.contains c
+        == (coreHasCase c && !Core.isOpSuccess c && c != 0xae && c != 0xaf)) = true ∧
+    ((List.range 256).filter (fun t => !(0 < t && t ≤ 78))).all
+      (fun t => Gen.Script.LEGACY_DISPATCHED.contains t == (Btclib.kind t != .unknown)) = true ∧
+    ((List.range 256).filter (fun t => !(0 < t && t ≤ 78))).all
+      (fun t => Btclib.kindFromChain t == Btclib.kind t) = true ∧
     (∀ (cx : Core.Ctx) (pos opos : Nat) (m : Core.Machine), ∀ c ∈ [0x50, 0x62, 0x89, 0x8a],
         Core.execPlain cx pos opos m c = .error .BAD_OPCODE) ∧
     (∀ (cx : Core.Ctx) (st : Core.State) (f : Bool), ∀ c ∈ [0x65, 0x66],
         Core.execConditional cx st c f = .error .BAD_OPCODE) := by
-  refine ⟨by decide, ?_, ?_⟩
+  refine ⟨by decide +kernel, by decide +kernel, by decide +kernel, by decide +kernel, ?_, ?_⟩
   · intro cx pos opos m c hc
     simp only [List.mem_cons, List.mem_nil_iff, or_false] at hc
     rcases hc with rfl | rfl | rfl | rfl <;> rfl
   · intro cx st f c hc
     simp only [List.mem_cons, List.mem_nil_iff, or_false] at hc
     rcases hc with rfl | rfl <;> rfl
+
+example : coreHasCase 0xac = true ∧ coreHasCase 0xba = true ∧ coreHasCase 0xae = true ∧ coreHasCase 0x50 = false ∧
+    coreHasCase 0x65 = false ∧ coreHasCase 0x63 = true ∧ coreHasCase 0xbb = false := by decide
+example : Gen.Script.LEGACY_DISPATCH.length = 14 ∧ Gen.Script.LEGACY_DISPATCH.head? = some ("eq", "OP_CHECKSIG") := by decide
 
 /-! ## T2 — parsing -/
 
@@ -244,8 +275,8 @@ theorem btclib_dispatch_is_the_name_table :
     NUMEQUAL NUMNOTEQUAL LESSTHAN GREATERTHAN LESSTHANOREQUAL GREATERTHANOREQUAL MIN MAX; VERIFY IFDUP 1NEGATE DEPTH SIZE
     WITHIN EQUAL — btclib's op-code function (pop order, IndexError, `_to_num`/`_to_bool`/`encode_num`) and the case of
     Core's switch accept the same stacks and leave the same stacks, for every stack, altstack and flag set.
-    PICK, ROLL, CHECKLOCKTIMEVERIFY, CHECKSEQUENCEVERIFY: next theorem.  Not covered: the conditionals (inline in the
-    loop) and the signature op codes. -/
+    PICK, ROLL, CHECKLOCKTIMEVERIFY, CHECKSEQUENCEVERIFY: next theorem.  The conditionals are inline in the loop (loop-level
+    theorem below); the four signature op codes: `signature_ops_refine_Core_shared`. -/
 theorem operations_refine_Core_partial (cx : Btclib.Ctx) (sc : Bytes) (code : Nat) (h : code ∈ Refine.covered)
     (stack alt : List Bytes) :
     Refine.btRes (Btclib.operation cx code stack alt)
